@@ -136,6 +136,14 @@ CLAIMED["C10"] = dict(
            "evaluated, covers every parameter, is re-applied on copy, and bracketing/line search work on that list; a step that gives up restores the objective before reporting the old value; no loop can cycle without changing state."),
     note=TB + "Not decided: descent, reported value = f(reported point) in general, convergence on quadratics, feasibility of every evaluation, bracketing triples: these are values of runs.")
 
+CLAIMED["C08"] = dict(
+    engine="E1",
+    technique="static analysis of ONE clause (error signalling): structural discovery of sentinel-returning functions and their pass-through closure, call-site discipline (returned unchanged or tested before arithmetic, with reaching definitions), constant propagation of documented out-of-domain arguments through entry guards",
+    level=("Only the last sentence of the property is claimed: out-of-domain arguments give the documented error signal. Decided for every call site and for the witness constants of the documented invalid regions: "
+           "sentinels of incompleteGamma/qChisq/qNorm are never rescaled or shifted by callers, and the entry guards of qNorm, qChisq, incompleteGamma, pGamma, incompleteBeta reject negative/over-unit probabilities, "
+           "non-positive shapes and negative abscissae. Range, monotonicity, identities, inverse relation and accuracy are NOT claimed (not applicable to this technique)."),
+    note=TB + "All numerical clauses of C08 are outside static reach (coefficient values, series/continued-fraction switches, iteration counts); qNorm(1) returning the lower-tail sentinel is noted, not asserted.")
+
 NOT_APPLICABLE = {
     "C06": ("every clause is a floating-point identity of the JAMA QL/QR iterations (A.V = V.D within k.eps, ordering, trace/determinant); correctness lies in rotation coefficients and "
             "deflation tests that no sound static argument in reach bounds, and no structural necessary condition separable from run-time invariants exists (DESIGN.md section 6)"),
